@@ -161,7 +161,20 @@ def install():
             continue
         if hasattr(obj, "acquire") and hasattr(obj, "release") and not isinstance(obj, type):
             setattr(A, name, SchedLock(obj, name))
+    # locks created later (lazily, per object, per call) must be scheduling points too: wrap the lock factories
+    # the module imported by name
+    for fname in ("Lock", "RLock"):
+        f = getattr(A, fname, None)
+        if f is not None and not getattr(f, "_pv_wrapped", False):
+            def factory(*a, _f=f, _n=fname, **k):
+                LATE_LOCKS[0] += 1
+                return SchedLock(_f(*a, **k), f"late_{_n}_{LATE_LOCKS[0]}")
+            factory._pv_wrapped = True
+            setattr(A, fname, factory)
     return A
+
+
+LATE_LOCKS = [0]
 
 
 def reload_aggregator():
